@@ -198,6 +198,22 @@ Theorem C17_superset_oracle : forall a b, superset_b a b = true <-> (forall v, I
 Proof. exact superset_b_iff. Qed.
 Print Assumptions C17_superset_oracle.
 
+(* ---- finding (class pad-panic): padVersions is not total.  It panics exactly
+   when the latest release does not parse back, and it does not for the
+   valid semantic version v9223372036854775808.0.0 (major = 2^63: fmt.Sscanf
+   "%d" overflows int).  The three theorems above are about the lists that are
+   produced. *)
+Theorem C17_pad_defined_iff : forall vcmp canonical prerelease versions patts pd,
+  pad_versions vcmp canonical prerelease versions patts pd = None
+  <-> parse_mmp (latest_release vcmp canonical prerelease (sem_sort vcmp versions)) = None.
+Proof. exact pad_defined_iff. Qed.
+Print Assumptions C17_pad_defined_iff.
+Theorem C17_pad_total_refuted :
+  pad_versions (fun _ => bcmp) (fun v => v) (fun _ => [])
+    [s2b "v9223372036854775808.0.0"] [] (mkPad 1 1 1 1 0) = None.
+Proof. exact pad_total_refuted. Qed.
+Print Assumptions C17_pad_total_refuted.
+
 (* ---- non-vacuity *)
 (* float oracle stand-ins for the examples: "0.1" <-> bits 1 *)
 Definition ex_pf (s : bytes) : option N := if beq s (s2b "0.1") then Some 1 else None.
